@@ -367,7 +367,24 @@ impl Prop for C05 {
             LockFault::Corrupt { field: 0 },
             LockFault::Corrupt { field: 1 },
             LockFault::Corrupt { field: 2 },
+            LockFault::CompensatedBf { pick: 0 },
         ];
+        // a decode of the genuine pair followed by a decode of an altered one (decoders must not
+        // remember anything between calls)
+        for (i, f2) in [LockFault::Corrupt { field: 2 }, LockFault::Corrupt { field: 0 }, LockFault::Corrupt { field: 1 }].iter().enumerate() {
+            let mk = |lf: Vec<LockFault>, amt: i64| PayPlan { amount: amt, cs_faults: vec![], lock_faults: lf, pt_faults: vec![] };
+            let plan = Plan {
+                seed: mix(&[seed, 0xC05F, i as u64]),
+                merchants: vec!["9001".into()],
+                channels: vec![ChanPlan { merchant: 0, cust_bal: 60, merch_bal: 6, est_cs_faults: vec![], est_pt_faults: vec![], payments: vec![mk(vec![LockFault::WrongBf { mode: 0 }, f2.clone(), LockFault::WrongBf { mode: 1 }, f2.clone()], 4)], stop_at: 1, stop_stage: "ready".into() }],
+                order: vec![0],
+                wire: i % 2 == 0,
+                crash: "none".into(),
+                crash_steps: vec![],
+                entropy: vec![],
+            };
+            v.push(case_of(&plan, json!({})));
+        }
         for (i, f) in kinds.iter().enumerate() {
             let mk = |lf: Vec<LockFault>, amt: i64| PayPlan { amount: amt, cs_faults: vec![], lock_faults: lf, pt_faults: vec![] };
             let plan = Plan {
@@ -475,6 +492,7 @@ impl Prop for C05 {
             "fault.lock.foreign-pair",
             "fault.lock.wrong-blinding-factor",
             "fault.lock.corrupt-pair-encoding",
+            "fault.lock.compensated-blinding-factor",
             "probe.foreign_pair_had_material",
             "probe.corrupt_pair_refused_by_decoder",
             "probe.right_revocation_after_3_wrong",
